@@ -389,6 +389,53 @@ def stream_too_little(env, rng, counts):
     raise cf
 
 
+def _integrate_var_checks(env, rng, counts, c):
+    """Integrate(g, x, {x} + some ints) for a Gaussian over the single real input x vs mean * mass."""
+    order = c.order
+    shape = c.shapes["x"]
+    dim = c.dim
+    g = c.build()
+    red_ints = [k for k in c.batch if rng.random() < 0.4]
+    hist = [dict(op="gaussian", **c.describe()), dict(op="integrate-variable", reduced=["x"] + red_ints)]
+    x = Variable("x", dom(shape))
+    rv = frozenset([x] + [Variable(k, Bint[c.batch[k]]) for k in red_ints])
+    try:
+        res = expect_value(counts, "integrate-var", lambda: Integrate(g, x, rv), True, hist)
+        if not isinstance(res, (Tensor, Number)):
+            counts("integrate-var:lazy")
+            return None
+        tab = c12.table_of(res, [k for k in c.batch if k not in red_ints], c.batch)
+        want = {}
+        reqs = []
+        for p in c.points():
+            w, P = c.at(p)
+            lam, eta, cc = dense_layout(c.layout, w, P)
+            inv = mat_inv(lam)
+            mean = [sum((inv[i][j] * eta[j] for j in range(dim)), F(0)) for i in range(dim)]
+            c2 = cc + sum((eta[i] * inv[i][j] * eta[j] for i in range(dim) for j in range(dim)), F(0)) / 2
+            norm = math.exp(float(c2) + logconst(dim, mat_det(lam)))
+            key = tuple(p[k] for k in c.batch if k not in red_ints)
+            want[key] = want.get(key, np.zeros(dim)) + np.array([float(m) for m in mean]) * norm
+            reqs.append((f"C13 meancov {sx(g_sexp(c.layout, w, P))}", mean, inv))
+        for key, v in want.items():
+            got = np.asarray(tab[key]).reshape(-1)
+            sc = max(1.0, float(np.max(np.abs(v))))
+            if not all(fclose(float(a), float(b), sc, 1e-8) for a, b in zip(got, v)):
+                raise CaseFail("C13.integrate-variable-ne-mean-times-mass", point=key, expected=str(v.tolist()),
+                               got=str(got.tolist()))
+        if env.use_driver:
+            for ans, (rq, mean, inv) in zip(env.driver.ask([r[0] for r in reqs]), reqs):
+                s = parse_sx(ans[3:]) if ans.startswith("ok ((") else None
+                if s is None or [F(v) for v in s[0]] != mean or [[F(v) for v in r] for r in s[1]] != inv:
+                    raise CaseFail("model-ne-spec", expected=str(mean), got=ans, request=rq[:1500])
+                counts("model:meancov-equal")
+    except CaseFail as cf:
+        cf.kw.setdefault("witness_history", hist)
+        raise
+    counts("integrate:variable")
+    return ("integrate-var", str(order), c.rank)
+
+
 def stream_integrate(env, rng, counts, force=None):
     """Integrate(g, x, {x}) and Integrate(g, h, reals) vs mean / Matrix-Cookbook-380 closed forms.
     `force` (grid stream): dict(measure=square|wide|factor-sum, shape=+a|-a|a-b, a=…, b=…)."""
@@ -407,46 +454,7 @@ def stream_integrate(env, rng, counts, force=None):
             c = Case(rng, order, c.rank)
         else:
             return None
-        g = c.build()
-        red_ints = [k for k in c.batch if rng.random() < 0.4]
-        hist = [dict(op="gaussian", **c.describe()), dict(op="integrate-variable", reduced=["x"] + red_ints)]
-        x = Variable("x", dom(shape))
-        rv = frozenset([x] + [Variable(k, Bint[c.batch[k]]) for k in red_ints])
-        try:
-            res = expect_value(counts, "integrate-var", lambda: Integrate(g, x, rv), True, hist)
-            if not isinstance(res, (Tensor, Number)):
-                counts("integrate-var:lazy")
-                return None
-            tab = c12.table_of(res, [k for k in c.batch if k not in red_ints], c.batch)
-            want = {}
-            reqs = []
-            for p in c.points():
-                w, P = c.at(p)
-                lam, eta, cc = dense_layout(c.layout, w, P)
-                inv = mat_inv(lam)
-                mean = [sum((inv[i][j] * eta[j] for j in range(dim)), F(0)) for i in range(dim)]
-                c2 = cc + sum((eta[i] * inv[i][j] * eta[j] for i in range(dim) for j in range(dim)), F(0)) / 2
-                norm = math.exp(float(c2) + logconst(dim, mat_det(lam)))
-                key = tuple(p[k] for k in c.batch if k not in red_ints)
-                want[key] = want.get(key, np.zeros(dim)) + np.array([float(m) for m in mean]) * norm
-                reqs.append((f"C13 meancov {sx(g_sexp(c.layout, w, P))}", mean, inv))
-            for key, v in want.items():
-                got = np.asarray(tab[key]).reshape(-1)
-                sc = max(1.0, float(np.max(np.abs(v))))
-                if not all(fclose(float(a), float(b), sc, 1e-8) for a, b in zip(got, v)):
-                    raise CaseFail("C13.integrate-variable-ne-mean-times-mass", point=key, expected=str(v.tolist()),
-                                   got=str(got.tolist()))
-            if env.use_driver:
-                for ans, (rq, mean, inv) in zip(env.driver.ask([r[0] for r in reqs]), reqs):
-                    s = parse_sx(ans[3:]) if ans.startswith("ok ((") else None
-                    if s is None or [F(v) for v in s[0]] != mean or [[F(v) for v in r] for r in s[1]] != inv:
-                        raise CaseFail("model-ne-spec", expected=str(mean), got=ans, request=rq[:1500])
-                    counts("model:meancov-equal")
-        except CaseFail as cf:
-            cf.kw.setdefault("witness_history", hist)
-            raise
-        counts("integrate:variable")
-        return ("integrate-var", str(order), c.rank)
+        return _integrate_var_checks(env, rng, counts, c)
     # ---- Gaussian against Gaussian ---------------------------------------------------------------
     fm = force.get("measure")
     c = gen_full_case(rng, want_rank=(lambda dim, r: dim) if fm == "square" else (lambda dim, r: dim + 1) if fm == "wide"
@@ -630,6 +638,11 @@ def stream_mixture(env, rng, counts):
         c = Case(rng, c.order, c.rank)
     else:
         return None
+    return _mixture_checks(env, rng, counts, c)
+
+
+def _mixture_checks(env, rng, counts, c):
+    names = [k for k, _ in c.layout]
     g = c.build()
     tb = [(k, n) for k, n in c.batch.items() if rng.random() < 0.7]
     tdata = dy_array(rng, tuple(n for _, n in tb))
@@ -675,8 +688,9 @@ def stream_mixture(env, rng, counts):
                                        got=str(float(tab2[key])), order=ints_order)
                 counts("mixture:joint-vs-sequential")
         # log_normalizer attribute
-        ln = c12.table_of(g.log_normalizer, list(c.batch), c.batch)
-        for p in c.points():
+        # (g may be Gaussian + shift Tensor when the constructor compressed: no attribute then)
+        ln = c12.table_of(g.log_normalizer, list(c.batch), c.batch) if isinstance(g, Gaussian) else None
+        for p in (c.points() if ln is not None else []):
             w, P = c.at(p)
             lam, eta, cc = dense_layout(c.layout, w, P)
             _, _, _, c2, nb, det = schur(c.layout, lam, eta, cc, names)
@@ -1338,9 +1352,219 @@ def stream_history(env, rng, counts):
     return ("history", tuple(rnames), str(slots), str(variants))
 
 
+# ----------------------------------------------------------------------------------------------
+# compression-threshold histories: Gaussians whose square-root factor is WIDER than the default constructor
+# would ever leave it (rank > 2*dim), or narrower than usual (threshold 1 / 1.5), because they were built while
+# the documented knob Gaussian.set_compression_threshold(t) was active — and are consumed after the context
+# exited (threshold back to 2) or still inside it.  Oracle: the same dense closed forms; a sum of quadratics
+# -1/2|x P_i - w_i|^2 is the quadratic of the column-concatenated factor [P_1 .. P_n], [w_1 .. w_n].
+# ----------------------------------------------------------------------------------------------
+
+THRESHOLDS = [math.inf, math.inf, 8, 4, 3, 2.5, 1.5, 1]
+VIAS = ["direct", "plate", "add"]
+PLATE_NAME = "p"          # not in BATCH_NAMES / REAL_NAMES
+
+
+class WideCase(Case):
+    """Case whose build() creates the Gaussian under set_compression_threshold(thr), either directly from the wide
+    factor, by plate fusion (reduce(ops.add, plate) of `parts` narrower factors living along an extra integer input
+    placed at batch position `ppos` / input position `ipos`), or as a sum of `parts` Gaussians."""
+
+    def __init__(self, rng, order, rank, thr, via, parts=2, ppos=0, ipos=0):
+        super().__init__(rng, order, rank)
+        self.thr, self.via, self.parts, self.ppos, self.ipos = thr, via, parts, ppos, ipos
+        assert via == "direct" or rank % parts == 0
+
+    def regen(self, rng):
+        return WideCase(rng, self.order, self.rank, self.thr, self.via, self.parts, self.ppos, self.ipos)
+
+    def context(self):
+        return Gaussian.set_compression_threshold(self.thr)
+
+    def build(self):
+        with self.context():
+            return self._build()
+
+    def _build(self):
+        w, P = self.w.copy(), self.P.copy()
+        if self.via == "direct":
+            return Gaussian(w, P, self.inputs)
+        n, r0 = self.parts, self.rank // self.parts
+        nbat = len(self.batch)
+        ws = w.reshape(w.shape[:-1] + (n, r0))                       # (..., n, r0)
+        Ps = P.reshape(P.shape[:-1] + (n, r0))                       # (..., dim, n, r0)
+        if self.via == "add":
+            gs = [Gaussian(np.ascontiguousarray(ws[..., i, :]), np.ascontiguousarray(Ps[..., i, :]), self.inputs)
+                  for i in range(n)]
+            out = gs[0]
+            for h in gs[1:]:
+                out = out + h
+            return out
+        # plate: extra integer input of size n at batch axis ppos, input position ipos
+        ws = np.ascontiguousarray(np.moveaxis(ws, nbat, self.ppos))                    # (.., n, .., r0)
+        Ps = np.ascontiguousarray(np.moveaxis(np.moveaxis(Ps, nbat + 1, nbat), nbat, self.ppos))   # (.., n, .., dim, r0)
+        items = list(self.inputs.items())
+        # position among the inputs consistent with batch axis ppos
+        bpos = [i for i, (k, d) in enumerate(items) if d.dtype != "real"]
+        lo = bpos[self.ppos - 1] + 1 if self.ppos > 0 else 0
+        hi = bpos[self.ppos] if self.ppos < len(bpos) else len(items)
+        at = lo + self.ipos % (hi - lo + 1)
+        items.insert(at, (PLATE_NAME, Bint[n]))
+        src = Gaussian(ws, Ps, OrderedDict(items))
+        return src.reduce(ops.add, PLATE_NAME)
+
+    def describe(self):
+        d = super().describe()
+        d.update(compression_threshold=str(self.thr), built_via=self.via, parts=self.parts,
+                 plate_batch_axis=self.ppos, plate_input_offset=self.ipos,
+                 note="white_vec/prec_sqrt are the column-concatenated factor of the summed parts")
+        return d
+
+
+def gen_wide_case(rng, force=None):
+    force = force or {}
+    thr = force.get("thr", None) or rng.choice(THRESHOLDS)
+    via = force.get("via") or rng.choice(VIAS)
+    nb = force.get("nb", rng.choice([0, 1, 1, 1, 2, 2]))
+    if force.get("single_x"):
+        shape = rng.choice([(), (2,), (3,), (1, 2)])
+        order = [("r", "x", shape)] + [("b", k, rng.choice([1, 2, 2, 3])) for k in rng.sample(BATCH_NAMES, nb)]
+        rng.shuffle(order)
+    else:
+        for _ in range(50):
+            order = gen_signature(rng, max_dim=force.get("max_dim", 4), nb_choices=(nb,))
+            if "dim" not in force or sum(numel(s) for kind, _, s in order if kind == "r") == force["dim"]:
+                break
+    dim = sum(numel(s) for kind, _, s in order if kind == "r")
+    if thr > 2:
+        # wider than the default constructor ever leaves it; also just below / at / above dim*thr for finite thr
+        ranks = [2 * dim + 1, 2 * dim + 2, 3 * dim, 3 * dim + 1, 4 * dim + 1, 5 * dim]
+        if thr != math.inf:
+            ranks += [int(dim * thr), int(dim * thr) + 1]
+        ranks = [r for r in ranks if r > 2 * dim and r <= 16] or [2 * dim + 1]
+    else:
+        ranks = [r for r in range(dim, 2 * dim + 1)]
+    rank = rng.choice(ranks)
+    parts = 1
+    if via != "direct":
+        divs = [n for n in (2, 3, 4, 5, 6) if rank % n == 0]
+        if not divs:
+            rank += (-rank) % rng.choice([2, 3])
+            divs = [n for n in (2, 3, 4, 5, 6) if rank % n == 0]
+        parts = rng.choice(divs)
+    c = WideCase(rng, order, rank, thr, via, parts, ppos=rng.randint(0, nb), ipos=rng.randrange(4))
+    names = [k for k, _ in c.layout]
+    for _ in range(30):
+        if c.block_ok(names):
+            return c
+        c = c.regen(rng)
+    return None
+
+
+def _wide_checks(env, rng, counts, c, consume, what):
+    """build under the threshold; consume after the context exited or inside it."""
+    import contextlib
+    names = [k for k, _ in c.layout]
+    hist0 = [dict(op="gaussian", **c.describe()), dict(op="consume", when=consume)]
+    counts("threshold:thr-" + str(c.thr))
+    counts("threshold:via-" + c.via)
+    counts("threshold:batch-%d" % len(c.batch))
+    counts("threshold:" + consume)
+    counts("threshold:rank-" + ("gt-2dim" if c.rank > 2 * c.dim else "le-2dim"))
+    g0 = c.build()
+    counts("threshold:built-" + ("pure-gaussian-rank-" + ("kept" if g0.prec_sqrt.shape[-1] == c.rank else "compressed")
+                                 if isinstance(g0, Gaussian) else type(g0).__name__))
+    ctxm = c.context() if consume == "inside" else contextlib.nullcontext()
+    try:
+        with ctxm:
+            if what in ("lognorm", "all"):
+                _marginal_checks(env, rng, counts, c, list(names), c.dim, hist0 + [dict(op="marginal", vars=names)])
+                # the attribute itself, on the object built under the threshold
+                if isinstance(g0, Gaussian):
+                    ln = c12.table_of(g0.log_normalizer, list(c.batch), c.batch)
+                    for p in c.points():
+                        w, P = c.at(p)
+                        lam, eta, cc = dense_layout(c.layout, w, P)
+                        _, _, _, c2, nb, det = schur(c.layout, lam, eta, cc, names)
+                        want = float(c2) + logconst(nb, det)
+                        got = float(ln[tuple(p[k] for k in c.batch)])
+                        if not fclose(got, want, 1.0, 1e-8):
+                            raise CaseFail("C13.log-normalizer-ne-formula", point=p, expected=str(want), got=str(got))
+                    counts("threshold:log-normalizer-attr")
+            if what in ("marginal", "all") and len(names) > 1:
+                bn = rng.sample(names, rng.randint(1, len(names) - 1))
+                if c.block_ok(bn):
+                    dim_b = sum(n for k, n in c.layout if k in bn)
+                    _marginal_checks(env, rng, counts, c, bn, dim_b, hist0 + [dict(op="marginal", vars=bn)])
+            if what in ("mixture", "all") and c.batch:
+                _mixture_checks(env, rng, counts, c)
+            if what in ("integrate", "all") and names == ["x"]:
+                _integrate_var_checks(env, rng, counts, c)
+    except CaseFail as cf:
+        if not cf.kw.get("witness_history") or cf.kw["witness_history"][0].get("compression_threshold") is None:
+            cf.kw["witness_history"] = hist0 + (cf.kw.get("witness_history") or [])[1:]
+        raise
+
+
+def stream_threshold(env, rng, counts, force=None):
+    """Gaussians built under a non-default compression threshold (directly / by plate fusion / as a sum), then
+    log-normalised, marginalised, mixture-reduced and integrated after the context exited or inside it."""
+    force = dict(force or {})
+    if not force and rng.random() < 0.3:
+        force["single_x"] = True
+    c = gen_wide_case(rng, force)
+    if c is None:
+        counts("threshold:gen-failed")
+        return None
+    consume = force.get("consume") or rng.choice(["after-exit", "after-exit", "inside"])
+    _wide_checks(env, rng, counts, c, consume, force.get("what", "all"))
+    return ("threshold", str(c.thr), c.via, c.parts, consume, c.rank, str(c.order))
+
+
+def threshold_grid(ctx, env):
+    """Enumerated: threshold x construction route x number of integer inputs x consumption point x total dim."""
+    rng = ctx.rng
+    quick = ctx.tier == "quick"
+    thrs = [math.inf, 4] if quick else [math.inf, 8, 4, 3, 1]
+    dims = [1, 2] if quick else [1, 2, 3]
+    n = 0
+    for thr, via, nb, consume, dim in itertools.product(thrs, VIAS, (0, 1, 2), ("after-exit", "inside"), dims):
+        seed = rng.getrandbits(48)
+        force = dict(thr=thr, via=via, nb=nb, consume=consume, dim=dim)
+        try:
+            key = stream_threshold(env, random.Random(seed), ctx.count, force=force)
+        except Declined as e:
+            ctx.count(f"threshold-grid:declined:{e}")
+            continue
+        except CaseFail as cf:
+            cf.kw["witness"] = dict(case_seed=seed, stream="threshold-grid", force={k: str(v) if k == "thr" else v
+                                                                                    for k, v in force.items()},
+                                    history=cf.kw.pop("witness_history", None))
+            report(ctx, cf)
+            continue
+        if key is not None:
+            n += 1
+            ctx.case(sample=dict(case_seed=seed, stream="threshold-grid", key=str(key)[:200]),
+                     nontrivial_key=("threshold-grid",) + tuple(str(v) for v in force.values()))
+    ctx.count("threshold-grid:cases", n)
+
+
+def replay_threshold_grid(case_seed, force):
+    env = Env(c12._Quiet(), use_driver=False)
+    force = dict(force, thr=float(force["thr"]))
+    try:
+        stream_threshold(env, random.Random(case_seed), lambda *a, **k: None, force=force)
+    except CaseFail as cf:
+        print("still fails:", cf.name, {k: v for k, v in cf.kw.items() if k != "witness"})
+        return True
+    except Declined:
+        return False
+    return False
+
+
 STREAMS = [("marginal", stream_marginal, 8), ("too-little", stream_too_little, 1), ("integrate", stream_integrate, 3),
            ("mixture", stream_mixture, 2), ("plate", stream_plate, 2), ("moment", stream_moment, 2),
-           ("shared", stream_shared, 2), ("contraction", stream_contraction, 2)]
+           ("shared", stream_shared, 2), ("contraction", stream_contraction, 2), ("threshold", stream_threshold, 3)]
 
 
 def run_case(env, case_seed, counts, stream=None):
@@ -1420,6 +1644,8 @@ def replay(ctx, doc):
         return replay_plate_exhaustive(w["case_seed"], w["order_raw"], w["mixture"])
     if w.get("stream") == "integrate-grid":
         return replay_integrate_grid(w["case_seed"], w["force"])
+    if w.get("stream") == "threshold-grid":
+        return replay_threshold_grid(w["case_seed"], w["force"])
     if w.get("stream") == "underdetermined":
         env_ = {}
         exec(doc["python"], env_)
@@ -1435,6 +1661,9 @@ def report(ctx, cf):
     if w.get("stream") == "integrate-grid":
         py = (f"import sys\nsys.path.insert(0, {str(VERIF)!r})\nfrom fv.harness import c13\n"
               f"FAILS = c13.replay_integrate_grid({w['case_seed']}, {w['force']!r})\n")
+    elif w.get("stream") == "threshold-grid":
+        py = (f"import sys\nsys.path.insert(0, {str(VERIF)!r})\nfrom fv.harness import c13\n"
+              f"FAILS = c13.replay_threshold_grid({w['case_seed']}, {w['force']!r})\n")
     elif w.get("stream") == "plate-exhaustive":
         py = (f"import sys\nsys.path.insert(0, {str(VERIF)!r})\nfrom fv.harness import c13\n"
               f"FAILS = c13.replay_plate_exhaustive({w['case_seed']}, {w['order_raw']!r}, {w['mixture']!r})\n")
@@ -1487,7 +1716,12 @@ def _correspond(ctx, use_driver=True, volume=None):
                 "moment matching (mass, mean, covariance); shared-array histories (several Gaussians around the same "
                 "prec_sqrt / white_vec array object); history stream: sequences A, B, C, A of Gaussians over the same "
                 "ordered input names with permuted block sizes (and one different total size), marginalised over the "
-                "same interleaved subsets, each step checked, and A's answers must be bitwise reproduced after B, C.  Non-trivial = the implementation returned a value that "
+                "same interleaved subsets, each step checked, and A's answers must be bitwise reproduced after B, C; "
+                "compression-threshold histories: Gaussians built under Gaussian.set_compression_threshold(t), t in "
+                "{inf, 8, 4, 3, 2.5, 1.5, 1}, directly from a wide factor (rank up to 5*dim > 2*dim), by plate fusion "
+                "of 2-6 parts or as a sum of 2-6 Gaussians, with 0-2 integer inputs, then log-normalised / "
+                "marginalised / mixture-reduced / integrated after the context exited or inside it (enumerated grid "
+                "threshold x route x #ints x consumption point x dim, plus a random stream).  Non-trivial = the implementation returned a value that "
                 "was compared; distinct by stream, signature, reduced set and rank.")
     env = Env(ctx, use_driver)
     if env.use_driver:
@@ -1495,6 +1729,7 @@ def _correspond(ctx, use_driver=True, volume=None):
     plate_exhaustive(ctx, env)
     integrate_grid(ctx, env)
     underdetermined_stream(ctx, env)
+    threshold_grid(ctx, env)
     n = volume or (900 if ctx.tier == "quick" else 16000)
     for _ in range(n):
         seed = ctx.rng.getrandbits(48)
